@@ -11,19 +11,27 @@ from readers import gaf_record, read_text, run_cli, write_text
 EXTRA = ["tp:A:P", "NM:i:-3", "zd:Z:a:b c#1"]
 
 
+IDS = ["s1", "s10", "s100", "s2", "s20", "s3", "s30", "s4", "s40", "s5"]      # ids that are prefixes of one another
+HAPCTG = "HG002#1#JAHKSE01.1"                                                    # a contig name as real rGFAs have them
+
+
+def nid(k):
+    return IDS[k - 1] if k <= len(IDS) else f"s9{k}"
+
+
 def segs_of(ref, hap, base=10):
     segs = {}
     so = 0
     k = 0
     for l in ref:
         k += 1
-        segs[f"s{k}"] = {"sn": "chr1", "so": so, "ln": l, "sr": 0}
+        segs[nid(k)] = {"sn": "chr1", "so": so, "ln": l, "sr": 0}
         so += l
     pos = base
     for g, l in hap:
         k += 1
         pos += g
-        segs[f"s{k}"] = {"sn": "hapA", "so": pos, "ln": l, "sr": 1}
+        segs[nid(k)] = {"sn": HAPCTG, "so": pos, "ln": l, "sr": 1}
         pos += l
     return segs
 
@@ -150,7 +158,7 @@ def run_mode(ctx, mode):
         if st["phase"] != "walk" or not st["walk"]:
             continue
         key = (tuple(st["ref"]), tuple(map(tuple, st["hap"])))
-        by_graph[key].append([(o, f"s{k}") for o, k in st["walk"]])
+        by_graph[key].append([(o, nid(k)) for o, k in st["walk"]])
     jobs = []
     for gi, ((ref, hap), walks) in enumerate(sorted(by_graph.items())):
         segs = segs_of(ref, hap)
